@@ -33,6 +33,45 @@ def showElem : Option Nat → String
   | some i => s!"elem:{i}"
   | none => "undef"
 
+/-- ops of a chain suffix such as `[1:4][::-1][0]` -/
+inductive ChainOp where
+  | sl (a b c : Option Int)
+  | ix (i : Int)
+
+def parseOptInt (s : String) : Option (Option Int) :=
+  if s.isEmpty then some none else (s.toInt?).map some
+
+def parseChain (suffix : String) : Option (List ChainOp) :=
+  let parts := (suffix.splitOn "[").drop 1
+  parts.mapM fun p =>
+    let body := (p.splitOn "]").head!
+    match body.splitOn ":" with
+    | [i] => (i.toInt?).map ChainOp.ix
+    | [a, b] => do pure (ChainOp.sl (← parseOptInt a) (← parseOptInt b) none)
+    | [a, b, c] => do pure (ChainOp.sl (← parseOptInt a) (← parseOptInt b) (← parseOptInt c))
+    | _ => none
+
+/-- run a chain on the model (`useModel = true`: Rust model; `false`: Python spec) -/
+def runChain (useModel : Bool) (kind : String) (len : Nat) (ops : List ChainOp) : String :=
+  let rec go (xs : List Nat) (first : Bool) : List ChainOp → String
+    | [] => s!"{classOf kind}:{joinNats xs}"
+    | ChainOp.sl a b c :: rest =>
+      if c = some 0 then "err:InvalidOperation" else
+      if useModel then
+        let r := if first && (kind = "iterunsized" || kind = "oneshot") then sliceUnsized xs a b c else slice xs a b c
+        match r with
+        | .panic => "panic"
+        | .ok .zeroStep => "err:InvalidOperation"
+        | .ok (.ok ys) => go ys false rest
+      else
+        go ((PySlice.indices xs.length a b (c.getD 1)).filterMap (xs[·]?)) false rest
+    | ChainOp.ix i :: rest =>
+      let r := if useModel then index? xs i else (PySlice.index xs.length i).bind (xs[·]?)
+      match rest with
+      | [] => showElem r
+      | _ => "bad-case"
+  go (List.range len) true ops
+
 def handle (line : String) : String :=
   let case := (line.splitOn "\t").head!
   match case.trimAscii.toString.splitOn " " with
@@ -50,6 +89,10 @@ def handle (line : String) : String :=
         let m := showElem (index? (List.range len) i)
         let sp := showElem (PySlice.index len i)
         s!"{case}\t{m}\t{sp}"
+    | _, _ => s!"{case}\tbad-case\tbad-case"
+  | ["chain", kind, len, suffix] =>
+    match len.toNat?, parseChain suffix with
+    | some len, some ops => s!"{case}\t{runChain true kind len ops}\t{runChain false kind len ops}"
     | _, _ => s!"{case}\tbad-case\tbad-case"
   | _ => s!"{case}\tbad-case\tbad-case"
 
